@@ -79,7 +79,7 @@ def run_pairs(R, pid, recs, variants, what):
     for i, (rec, name) in enumerate(recs):
         for tag, a, b in variants(i):
             jobs.append(dict(rec=rec, name=name, a=a, b=b, idx=i, tag=tag, keep=(len(jobs) % 701 == 0)))
-    results = driverprops.pool_map(_work_pair, jobs)
+    results = driverprops.pool_map_shared(_work_pair, jobs)
     for w in results:
         rec, _ = recs[w["idx"]]
         R.case((w["idx"], w["tag"]), nontrivial=w["differs"])
@@ -173,7 +173,7 @@ def run_c17(pid, tier):
 # ------------------------------------------------------------------------------------------------ C19
 def loc_corpus(tier, kind, withviol):
     sd = verif_seed()
-    n = {("quick", "c"): 1600, ("quick", "h"): 320, ("thorough", "c"): 16000, ("thorough", "h"): 1600}[(tier, kind)]
+    n = {("quick", "c"): 1600, ("quick", "h"): 320, ("thorough", "c"): 4800, ("thorough", "h"): 960}[(tier, kind)]      # every behaviour exports ~20 transforms
     k = cache.key("locality", kind, withviol, n, sd)
     c = cache.get(k)
     if c is not None:
@@ -255,7 +255,7 @@ def run_c19(pid, tier):
             recs += exports
     R.cov["exhaustive"] = False
     jobs = [dict(rec=rec, seed=sd * 19 + 1, idx=i, keep=(i % 397 == 0)) for i, rec in enumerate(recs)]
-    results = driverprops.pool_map(_work_loc, jobs)
+    results = driverprops.pool_map_shared(_work_loc, jobs)
     for w in results:
         rec = recs[w["idx"]]
         R.case((w["idx"], rec["law"]["t"], rec["law"]["k"]))
